@@ -310,7 +310,8 @@ def spub (args : List String) : String × String :=
     let topicsOf (s : String) : List Bytes := if s == "-" then [[]] else unhexList s
     let ps := (pubs.splitOn ";").map topicsOf
     let one (s : String) : String :=
-      let st := unhexList s
+      -- (`SPUBH`: a session whose `OnSession` names no topics is on the default topic)
+      let st := if s == "-" then [[]] else unhexList s
       let got := (List.range ps.length).filter fun j => st.any fun a => ((ps[j]?).getD []).any fun b => a == b
       if got.isEmpty then "-" else ".".intercalate (got.map toString)
     let r := ";".intercalate ((subs.splitOn ";").map one)
@@ -320,6 +321,7 @@ def spub (args : List String) : String × String :=
 def handle (op : String) (args : List String) : Option (String × String) :=
   match op with
   | "SPUB" => some (spub args)
+  | "SPUBH" => some (spub args)
   | "SESS" => some (sess args)
   | "SERVE" => some (serve args)
   | "E2E" => some (e2e args)
